@@ -218,6 +218,8 @@ class World:
             elif h[0] == "missing":
                 # KeyError on odd positions, TypeError (json.loads(None)) on even ones
                 body = b'{}' if self.k % 2 else b'{"results": null}'
+            elif h[0] in ("nokey", "notstr", "badjson", "p"):
+                body = results_body(h)          # the results machine (Model/C17R.lean): content of the answer
             return self._answer(url, h if h[0] in ("h", "c") else OK, body)
         self.calls.append("?GET" + tail)
         raise ScriptExhausted("unexpected GET " + tail)
@@ -1754,6 +1756,588 @@ def check_sync_clock(chk, world, n):
 
 
 # ------------------------------------------------------------------------------------------------
+# results on the CONTENT of the answer (Model/C17R.lean, part R: `rstep`)
+# ------------------------------------------------------------------------------------------------
+MAP_MODULE = "verif_c17_mapping"
+
+
+def install_mapping_module():
+    """the function `job_context['result_mapping']` names: importable through sys.modules, records what it got"""
+    import sys
+    import types
+    if MAP_MODULE in sys.modules:
+        return
+    m = types.ModuleType(MAP_MODULE)
+
+    def vmap(results, **kw):
+        return {"__mapped__": results, "__args__": list(kw.items())}
+    m.vmap = vmap
+    sys.modules[MAP_MODULE] = m
+
+
+def encode_payload(p):
+    """the Python value whose JSON text the scripted server puts into `results`"""
+    if p is None:
+        return None
+    t = p[0]
+    if t == "num":
+        return p[1]
+    if t == "str":
+        return "abc" if p[1] else ""
+    if t == "list":
+        return [7] * p[1]
+    _, res, rlist, ctx, extra = p
+    d = {}
+    if extra:
+        d["extra"] = 1
+    if res is not None:
+        d["results"] = {"tok": res}
+    if ctx[0] == "null":
+        d["job_context"] = None
+    elif ctx[0] == "nomap":
+        d["job_context"] = {"other": 1}
+    elif ctx[0] == "map":
+        fn = {"good": [MAP_MODULE, "vmap"], "noattr": [MAP_MODULE, "nothing"],
+              "nomodule": ["verif_c17_no_such_module", "vmap"]}[ctx[1]]
+        d["job_context"] = {"result_mapping": fn}
+        if ctx[2] is not None:
+            d["job_context"]["mapping_delta_parameters"] = {k: v for k, v in ctx[2]}
+    if rlist is not None:
+        items = []
+        for tok, it in rlist:
+            item = {}
+            if it is not None:
+                item["iteration"] = {k: v for k, v in it}
+            if tok is not None:
+                item["results"] = {"tok": tok}
+            items.append(item)
+        d["results_list"] = items
+    return d
+
+
+def results_body(h):
+    if h[0] == "nokey":
+        return b'{}'
+    if h[0] == "notstr":
+        return b'{"results": null}'
+    if h[0] == "badjson":
+        return b'{"results": "{not json"}'
+    return json.dumps({"results": json.dumps(encode_payload(h[1]))}).encode()
+
+
+def rv_str(v):
+    if isinstance(v, dict) and "__mapped__" in v:
+        return "M(" + rv_str(v["__mapped__"]) + "|" + ",".join(f"{k}={x}" for k, x in v["__args__"]) + ")"
+    if isinstance(v, dict) and set(v) == {"tok"}:
+        return str(v["tok"])
+    return "?" + repr(v)
+
+
+def payload_str(r):
+    """canonical form of what get_results() returned (same grammar as `payloadStr` of the driver)"""
+    if r is None:
+        return "null"
+    if isinstance(r, bool):
+        return "?bool"
+    if isinstance(r, int):
+        return f"num:{r}"
+    if isinstance(r, str):
+        return "str:" + r
+    if isinstance(r, list):
+        return f"list:{len(r)}"
+    if not isinstance(r, dict):
+        return "?" + type(r).__name__
+    res = rv_str(r["results"]) if "results" in r else "-"
+    if "results_list" in r:
+        rl = "[" + ";".join(
+            (rv_str(it["results"]) if "results" in it else "-") + "/" +
+            (",".join(f"{k}={x}" for k, x in it["iteration"].items()) if "iteration" in it else "-")
+            for it in r["results_list"]) + "]"
+    else:
+        rl = "-"
+    if "job_context" not in r:
+        ctx = "absent"
+    elif r["job_context"] is None:
+        ctx = "null"
+    elif "result_mapping" in r["job_context"]:
+        ctx = "map"
+    else:
+        ctx = "nomap"
+    return f"dict:{res}:{rl}:{ctx}:{1 if 'extra' in r else 0}"
+
+
+def expected_mapping(p):
+    """the property-level expectation for a well-formed mapped answer, computed independently of the Lean model:
+    every item (or the single entry) is replaced by f(item, **delta parameters overridden by the item's iteration);
+    None when the answer is not of that clear-cut shape"""
+    if not (isinstance(p, list) and p and p[0] == "dict"):
+        return None
+    _, res, rlist, ctx, extra = p
+    if ctx[0] != "map" or ctx[1] != "good":
+        return None
+    deltas = ctx[2] or []
+    if rlist is not None:
+        if any(tok is None or it is None for tok, it in rlist):
+            return None
+        items = []
+        for tok, it in rlist:
+            d = dict(it)
+            args = ",".join(f"{k}={d.get(k, v)}" for k, v in deltas)
+            items.append(f"M({tok}|{args})/" + ",".join(f"{k}={x}" for k, x in it))
+        r = "-" if res is None else str(res)
+        return f"dict:{r}:[{';'.join(items)}]:map:{1 if extra else 0}"
+    if res is None:
+        return None
+    return f"dict:M({res}|{','.join(f'{k}={v}' for k, v in deltas)}):-:map:{1 if extra else 0}"
+
+
+def do_op(world, job, k, op, after_begin=None):
+    """one operation of the base alphabet (+ "G") on the real job -> (result string, new job or None)"""
+    kind = op[0]
+    if kind == "x":
+        world.begin(k, [], op[1])
+    elif kind == "p":
+        world.begin(k, [op[2]], None)
+    elif kind == "c":
+        world.begin(k, [op[1]], op[2])
+    else:
+        world.begin(k, [op[1], op[2]], op[3])
+    if after_begin is not None:
+        after_begin()
+    new_job = None
+    try:
+        if kind == "x":
+            job.execute_async()
+            res = "ok"
+        elif kind == "p":
+            v = op[1]
+            res = ("st:" + job.status()) if v == 0 else ("flag:1" if getattr(job, VIEWS[v]) else "flag:0")
+        elif kind == "c":
+            job.cancel()
+            res = "ok"
+        elif kind == "r":
+            new_job = job.rerun()
+            res = f"new:{cid(new_job)}:{shown(new_job)}"
+        elif kind == "G":
+            res = "val:" + payload_str(job.get_results())
+        else:
+            r = job.get_results()
+            res = "res:empty" if r == {} else f"res:{r['results']['tok']}"
+    except Exception as e:  # noqa: BLE001 — every exception class is an observable outcome
+        res = exc_str(world, e, "g" if kind == "G" else kind)
+    return res, new_job
+
+
+def run_rops(world, ops):
+    """-> (outs, hits, tags): the results machine on the real code (throttle transparent), with the property
+    statement evaluated directly on the trace"""
+    install_mapping_module()
+    job = world.RemoteJob({"payload": {}}, world.handler, "verif")
+    outs, hits, tags = [], [], set()
+    final = None          # final status shown
+    failmsg = None        # status_message of the server read that said ERROR / CANCELED
+    cached = None         # value a get_results of the FINAL job returned (truthy): must be returned for ever
+    stored = False        # a results answer with a decodable value has been received by this object
+    odd = False           # this object has been told a status string outside the canonical vocabulary
+    for k, op in enumerate(ops, 1):
+        kind = op[0]
+        res, new_job = do_op(world, job, k, op)
+        calls, served = list(world.calls), list(world.served)
+        for r in served:
+            if r[0] == "s" and r[1] in ("error", "canceled"):
+                failmsg = f"m{k}"
+            elif r[0] == "s" and r[1] not in CANON:
+                odd = True            # the direct message oracles only judge the canonical server vocabulary
+        if final is not None and any(c[0] == "S" for c in calls):
+            hits.append(("polls-after-final", k, f"step {k}: status request sent after the job showed {final}"))
+        if kind == "G":
+            asked = any(c[0] == "G" for c in calls)
+            guard = served[0][1] if served and served[0][0] == "s" else None
+            if guard in UNFINISHED:
+                tags.add("R-refused")
+                if res != "exc:RuntimeError:running" or asked:
+                    hits.append(("results-while-unfinished", k,
+                                 f"step {k}: get_results() while the server says {guard!r}: result {res}, requests "
+                                 f"{','.join(calls)} (must be refused without a results request)"))
+            if res.startswith("exc:RuntimeError:failed:"):
+                tags.add("R-failed-message")
+                if failmsg is not None and not odd and res != "exc:RuntimeError:failed:" + failmsg:
+                    hits.append(("failed-message-lost", k,
+                                 f"step {k}: the server's failure message was {failmsg!r} but get_results() raised "
+                                 f"{res}"))
+            if final in FAILED_NAMES and not stored and not odd and op[3][0] in ("nokey", "notstr"):
+                if res != "exc:RuntimeError:failed:" + str(failmsg):
+                    hits.append(("failed-message-lost", k,
+                                 f"step {k}: get_results() of a job that ended {final} (message {failmsg!r}, no usable "
+                                 f"results in the answer) gave {res} instead of 'The job failed: <message>'"))
+            if cached is not None:
+                tags.add("R-cached-return")
+                if res != cached or calls:
+                    hits.append(("cached-results-changed", k,
+                                 f"step {k}: the finished job had returned {cached} before; get_results() now gives "
+                                 f"{res} with requests {','.join(calls) or 'none'}"))
+            elif final is not None and not stored and asked and op[3][0] == "p":
+                want = expected_mapping(op[3][1])
+                if want is not None:
+                    tags.add("R-mapped-single" if op[3][1][2] is None else "R-mapped-list")
+                    if op[3][1][2] is not None and any(
+                            k2 in dict(it) and dict(it)[k2] != v2 for _, it in op[3][1][2]
+                            for k2, v2 in (op[3][1][3][2] or [])):
+                        tags.add("R-override")
+                    if res != "val:" + want:
+                        hits.append(("result-mapping-wrong", k,
+                                     f"step {k}: the answer asks for the mapping of every entry (delta parameters "
+                                     f"{op[3][1][3][2]}); expected {want}, get_results() returned {res}"))
+            if asked and op[3][0] == "p":
+                if stored and res.startswith("val:") and shown(job) == "UNKNOWN":
+                    tags.add("R-unknown-refetch")
+                stored = True
+            if res.startswith("val:") and not asked and cached is None and stored:
+                tags.add("R-stored-value-returned")
+            if res.startswith("val:") and shown(job) in FINAL_NAMES and res not in (
+                    "val:null", "val:num:0", "val:str:", "val:list:0", "val:dict:-:-:absent:0"):
+                cached = res
+            tags.add({"exc:JSONDecodeError": "R-badjson", "exc:AttributeError": "R-noattr",
+                      "exc:ModuleNotFoundError": "R-nomodule"}.get(res, "R-other"))
+            if asked and res.startswith("exc:RuntimeError") and op[3][0] == "p" and \
+                    isinstance(op[3][1], list) and op[3][1][0] == "dict" and op[3][1][2] and \
+                    op[3][1][2][0][0] is not None and op[3][1][3][:2] == ["map", "good"]:
+                tags.add("R-partial-mapping")
+        if new_job is not None and op[4]:
+            job, final, failmsg, cached, stored, odd = new_job, None, None, None, False, False
+        sh = shown(job)
+        if final is not None and sh != final:
+            hits.append(("final-status-changed", k, f"step {k}: status shown went from {final} to {sh}"))
+        if sh in FINAL_NAMES:
+            final = sh
+        outs.append(f"{res}|{cid(job)}|{sh}|{','.join(calls)}")
+    return outs, hits, tags
+
+
+def rand_iter(rng, names):
+    ks = [n for n in names if rng.random() < 0.6]
+    rng.shuffle(ks)
+    return [[n, rng.randint(0, 9)] for n in ks]
+
+
+def rand_payload(rng):
+    x = rng.random()
+    if x < 0.05:
+        return None
+    if x < 0.1:
+        return ["num", rng.choice([0, 5])]
+    if x < 0.15:
+        return ["str", rng.random() < 0.5]
+    if x < 0.2:
+        return ["list", rng.choice([0, 2])]
+    y = rng.random()
+    if y < 0.12:
+        ctx = ["absent"]
+    elif y < 0.2:
+        ctx = ["null"]
+    elif y < 0.28:
+        ctx = ["nomap"]
+    else:
+        z = rng.random()
+        fn = "good" if z < 0.84 else ("noattr" if z < 0.92 else "nomodule")
+        w = rng.random()
+        deltas = None if w < 0.2 else ([] if w < 0.3 else rand_iter(rng, ["a", "b", "c"]) or [["a", 1]])
+        ctx = ["map", fn, deltas]
+    res = rng.randint(1, 99) if rng.random() < 0.6 else None
+    rlist = None
+    if rng.random() < 0.6:
+        rlist = []
+        for _ in range(rng.randint(0, 3)):
+            bad = rng.random()
+            rlist.append([None if bad < 0.08 else rng.randint(1, 99),
+                          None if 0.08 <= bad < 0.18 else rand_iter(rng, ["a", "b", "c", "z"])])
+    return ["dict", res, rlist, ctx, rng.random() < 0.2]
+
+
+def rand_rbody(rng):
+    x = rng.random()
+    if x < 0.06:
+        return H(rng.choice([404, 429, 500]))
+    if x < 0.09:
+        return CONN
+    if x < 0.15:
+        return ["nokey"]
+    if x < 0.21:
+        return ["notstr"]
+    if x < 0.27:
+        return ["badjson"]
+    return ["p", rand_payload(rng)]
+
+
+def gen_rops(rng):
+    ops = [["x", OK]]
+    for _ in range(rng.randint(1, 3)):          # one job, then perhaps its rerun children
+        for _ in range(rng.randint(0, 2)):
+            ops.append(["p", 0, S(rng.choice(["waiting", "running", "suspended", "unknown"]))])
+            if rng.random() < 0.4:
+                ops.append(["G", S(rng.choice(CANON)), rand_status_answer(rng, False), rand_rbody(rng)])
+        end = rng.choice(["completed", "error", "canceled", "error", "canceled", "unknown", "bogus"])
+        ops.append(["p", rng.choice([0, 0, 1, 2]), S(end)])
+        for _ in range(rng.randint(1, 5)):
+            x = rng.random()
+            if x < 0.75:
+                ops.append(["G", rand_status_answer(rng, False), rand_status_answer(rng, False), rand_rbody(rng)])
+            elif x < 0.85:
+                ops.append(["p", 0, rand_status_answer(rng, False)])
+            elif x < 0.92:
+                ops.append(["c", rand_status_answer(rng, False), rand_h(rng)])
+            else:
+                ops.append(["r", rand_status_answer(rng, False), rand_status_answer(rng, False), rand_h(rng), False])
+        ops.append(["r", rand_status_answer(rng, False), rand_status_answer(rng, False), OK, True])
+    return ops[:-1] if rng.random() < 0.5 else ops
+
+
+def judge_rops(chk, world, ops, lean_outs=None):
+    outs, hits, tags = run_rops(world, ops)
+    if lean_outs is None:
+        rep = chk.lean.ask({"fixed": True, "rops": ops})
+        if "err" in rep:
+            return ("broken", "driver-rejects", f"Lean driver rejected the history: {rep['err']}", {"rops": ops}), tags
+        lean_outs = rep["outs"]
+    if hits:
+        sig, k, what = hits[0]
+        return ("violation", sig, what, {"rops": ops, "real": outs, "model": lean_outs}), tags
+    i = next((i for i, (x, y) in enumerate(zip(outs, lean_outs)) if x != y), None)
+    if i is not None:
+        return ("broken", "results-model-vs-code",
+                f"step {i + 1} ({ops[i]}): real code gives {outs[i]!r}, results model gives {lean_outs[i]!r}; "
+                f"no direct oracle fails", {"rops": ops, "real": outs, "model": lean_outs}), tags
+    return None, tags
+
+
+def shrink_list(judge_fn, items, sig, budget=250):
+    cur = list(items)
+    changed = True
+    while changed and budget > 0:
+        changed = False
+        for i in range(len(cur)):
+            cand = cur[:i] + cur[i + 1:]
+            if not cand:
+                continue
+            budget -= 1
+            r, _ = judge_fn(cand)
+            if r is not None and r[1] == sig:
+                cur, changed = cand, True
+                break
+    return cur
+
+
+def report_list(chk, judge_fn, r, key):
+    kind, sig, what, rep = r
+    seen = chk.extra.setdefault("_reported", set())
+    if (kind, sig) in seen:
+        return
+    seen.add((kind, sig))
+    small = shrink_list(judge_fn, rep[key], sig)
+    r2, _ = judge_fn(small)
+    if r2 is not None and r2[1] == sig:
+        kind, sig, what, rep = r2
+    chk.fail(kind, sig, what, rep)
+
+
+R_BRANCHES = ["R-refused", "R-failed-message", "R-cached-return", "R-mapped-list", "R-mapped-single", "R-override",
+              "R-unknown-refetch", "R-stored-value-returned", "R-badjson", "R-noattr", "R-nomodule",
+              "R-partial-mapping"]
+
+
+def check_results(chk, world, n):
+    corpus = load_corpus("rops")
+    hists = corpus + [gen_rops(chk.rng) for _ in range(n)]
+    reps = chk.lean.ask_many([{"fixed": True, "rops": h} for h in hists])
+    for h, rep in zip(hists, reps):
+        chk.evaluations += 1
+        chk.count("source", "results")
+        if "err" in rep:
+            chk.fail("broken", "driver-rejects", rep["err"], {"rops": h})
+            continue
+        r, tags = judge_rops(chk, world, h, rep["outs"])
+        for t in tags:
+            chk.branch(t)
+        chk.case(json.dumps(h), any(op[0] == "G" and op[3][0] == "p" for op in h),
+                 {"source": "results", "len": len(h), "ops": h[:4]})
+        if r is not None:
+            report_list(chk, lambda ops: judge_rops(chk, world, ops), r, "rops")
+
+
+# ------------------------------------------------------------------------------------------------
+# every operation under the real throttle (Model/C17R.lean, part K: `kstep`), shipped delay, scripted clock
+# ------------------------------------------------------------------------------------------------
+class SeqClock:
+    """time.time() of remote_job.py: the scripted times of the status reads of the current operation, in order"""
+
+    def __init__(self):
+        self.seq = [0.0]
+        self.count = 0
+        self.last = 0.0
+
+    def set(self, *ts):
+        self.seq = list(ts)
+        self.count = 0
+
+    def time(self):
+        self.last = self.seq[min(self.count, len(self.seq) - 1)]
+        self.count += 1
+        return self.last
+
+    def sleep(self, s):
+        raise LoopRunaway("sleep in a clocked operation")
+
+
+class ByRead(list):
+    """status answers served by the POSITION of the status read within the operation (as in the model: the first
+    read gets r1, the second r2, whether or not the first one reached the server); the read in progress is the one
+    whose time the clock handed out last"""
+
+    def __init__(self, answers, clock):
+        super().__init__(answers)
+        self.clock = clock
+        self.req_times = []
+
+    def pop(self, _i=0):
+        self.req_times.append(self.clock.last)
+        return self[min(max(self.clock.count - 1, 0), len(self) - 1)]
+
+
+def run_kops(world, kops):
+    """-> (outs, hits, tags); kops = [now1, now2, op] with times in quarter seconds, delay = 1 s"""
+    RJ = world.RemoteJob
+    saved_time, saved_delay = world.rjm.time, RJ.STATUS_REFRESH_DELAY
+    clock = SeqClock()
+    outs, hits, tags = [], [], set()
+    try:
+        world.rjm.time = clock
+        RJ.STATUS_REFRESH_DELAY = 1
+        job = RJ({"payload": {}}, world.handler, "verif")
+        final, fails, creates, last_req, prev = None, 0, 0, 0, "not sent"
+        for k, (n1, n2, op) in enumerate(kops, 1):
+            clock.set(n1 / 4.0, n2 / 4.0)
+            kind = op[0]
+            box = {}
+
+            def by_read():
+                world.status_q = box["q"] = ByRead(world.status_q, clock)
+            res, new_job = do_op(world, job, k, op, by_read)
+            calls, served = list(world.calls), list(world.served)
+            ns = sum(1 for c in calls if c[0] == "S")
+            req_times = [int(round(x * 4)) for x in box["q"].req_times]
+            creates += calls.count("C")
+            if creates > 1:
+                hits.append(("sent-twice", k, f"step {k}: create_job called again for a job object already submitted"))
+            if final is not None and ns:
+                hits.append(("polls-after-final", k, f"step {k}: status request sent after the job showed {final}"))
+            sent_before = prev != "not sent"
+            if sent_before and final is None and kind != "x":
+                if n1 - last_req > DELAY_Q:
+                    tags.add("K-overdue-checked")
+                    if ns == 0:
+                        hits.append(("stopped-polling-before-final", k,
+                                     f"step {k}: {OP_NAME[kind]} at t={n1 / 4.0}s, {(n1 - last_req) / 4.0}s after the "
+                                     f"last status request (refresh delay 1s) on a job showing {prev} (not final) sent "
+                                     f"no status request (result {res})"))
+                elif ns == 0:
+                    tags.add("K-throttled-guard" if kind != "p" else "K-throttled-read")
+                if ns == 1 and kind == "r" and res == "exc:RuntimeError:norerun" and req_times == [n1]:
+                    tags.add("K-second-read-throttled")
+                if ns == 1 and kind in ("r", "g") and req_times == [n2] and n2 != n1:
+                    tags.add("K-only-second-read-sent")
+                if ns == 2:
+                    tags.add("K-second-read-sent")
+            for i, r in enumerate(served):
+                if r[0] == "s":
+                    fails = 0
+                else:
+                    fails += 1
+                    fatal = r[0] == "h" and r[1] not in TRANSIENT
+                    must = fails > MAX_ABSORBED or fatal
+                    want = "exc:ConnectionError" if r[0] == "c" else f"exc:HTTPError:{r[1]}"
+                    last = i == len(served) - 1 and calls[-1][0] == "S"    # nothing was requested after it
+                    if must and not (last and res == want):
+                        hits.append(("fatal-http-absorbed" if fatal and fails <= MAX_ABSORBED
+                                     else "streak-absorbed-after-max", k,
+                                     f"step {k}: failed status request number {fails} of the streak ({r}) was not "
+                                     f"raised (result {res})"))
+                    elif not must and last and res == want:
+                        hits.append(("transient-not-absorbed", k,
+                                     f"step {k}: transient failure number {fails} was raised ({res})"))
+            if req_times:
+                last_req = req_times[-1]
+            if new_job is not None and op[4]:
+                # the new object exists since now: "overdue" is judged from its creation on (the code is stricter:
+                # it starts with _previous_status_refresh = 0, compared through the model)
+                job, final, fails, creates, last_req = new_job, None, 0, 1, n2
+                tags.add("K-child")
+            sh = shown(job)
+            if final is not None and sh != final:
+                hits.append(("final-status-changed", k, f"step {k}: status shown went from {final} to {sh}"))
+            if sh in FINAL_NAMES:
+                final = sh
+            prev = sh
+            outs.append(f"{res}|{cid(job)}|{sh}|{','.join(calls)}")
+    finally:
+        world.rjm.time = saved_time
+        RJ.STATUS_REFRESH_DELAY = saved_delay
+    return outs, hits, tags
+
+
+def gen_kops(rng):
+    t = rng.choice([0, 2, 5, 9])
+    kops = [[t, t, ["x", OK if rng.random() < 0.9 else rand_h(rng)]]]
+    fail_bias = rng.random() < 0.35
+    for _ in range(rng.randint(2, 14)):
+        t += rng.choice([0, 1, 3, 4, 5, 5, 6, 12])
+        t2 = t + rng.choice([0, 0, 0, 1, 5, 8])
+        op = rand_op(rng, fail_bias and rng.random() < 0.8)
+        kops.append([t, t2, op])
+        t = t2
+    return kops
+
+
+def judge_kops(chk, world, kops, lean_outs=None):
+    outs, hits, tags = run_kops(world, kops)
+    if lean_outs is None:
+        rep = chk.lean.ask({"fixed": True, "delay": DELAY_Q, "kops": kops})
+        if "err" in rep:
+            return ("broken", "driver-rejects", f"Lean driver rejected the history: {rep['err']}", {"kops": kops}), tags
+        lean_outs = rep["outs"]
+    if hits:
+        sig, k, what = hits[0]
+        return ("violation", sig, what, {"kops": kops, "real": outs, "model": lean_outs}), tags
+    i = next((i for i, (x, y) in enumerate(zip(outs, lean_outs)) if x != y), None)
+    if i is not None:
+        return ("broken", "clocked-ops-model-vs-code",
+                f"step {i + 1} ({kops[i]}): real code gives {outs[i]!r}, clocked model gives {lean_outs[i]!r}; "
+                f"no direct oracle fails", {"kops": kops, "real": outs, "model": lean_outs}), tags
+    return None, tags
+
+
+K_BRANCHES = ["K-overdue-checked", "K-throttled-guard", "K-throttled-read", "K-second-read-throttled",
+              "K-only-second-read-sent", "K-second-read-sent", "K-child"]
+
+
+def check_clocked_ops(chk, world, n):
+    corpus = load_corpus("kops")
+    hists = corpus + [gen_kops(chk.rng) for _ in range(n)]
+    reps = chk.lean.ask_many([{"fixed": True, "delay": DELAY_Q, "kops": h} for h in hists])
+    for h, rep in zip(hists, reps):
+        chk.evaluations += 1
+        chk.count("source", "clocked-ops")
+        if "err" in rep:
+            chk.fail("broken", "driver-rejects", rep["err"], {"kops": h})
+            continue
+        r, tags = judge_kops(chk, world, h, rep["outs"])
+        for t in tags:
+            chk.branch(t)
+        chk.case(json.dumps(h), any(k[2][0] != "p" for k in h), {"source": "clocked-ops", "len": len(h), "ops": h[:4]})
+        if r is not None:
+            report_list(chk, lambda ks: judge_kops(chk, world, ks), r, "kops")
+
+
+# ------------------------------------------------------------------------------------------------
 def load_corpus(key="ops"):
     out = []
     for p in sorted(glob.glob(os.path.join(core.VERIF, "corpus", "C17", "*.json"))):
@@ -1807,7 +2391,9 @@ def setup(chk):
         "full-history", "to-dict", "to-dict-no-body", "reopen-sent", "reopen-unsent", "reopen-final", "reopen-no-body",
         "resume-read", "resume-fault", "name-empty", "name-not-a-string", "rerun-no-body", "time-type-error",
         "sync-accepted", "sync-refused", "sync-raised", "sync-absorbed", "sync-pending", "sync-returned",
-        "sync-job-failed", "sync-clock-spaced", "sync-clock-throttled"]
+        "sync-job-failed", "sync-clock-spaced", "sync-clock-throttled",
+        # the results machine and the clocked operations (Model/C17R.lean)
+        *R_BRANCHES, *K_BRANCHES]
     return World()
 
 
@@ -1898,9 +2484,15 @@ def run(chk: core.Check):
     t8 = time.time()
     check_sync_clock(chk, world, chk.pick(400, 4000))
     chk.extra["sync_clock"] = {"cases": chk.pick(400, 4000), "seconds": round(time.time() - t8, 1)}
+    lap("sync-clock")
+    # 9. results on the content of the answer (job_context / result_mapping / results_list, the cache)
+    check_results(chk, world, chk.pick(1500, 12000))
+    lap("results")
+    # 10. every operation under the real throttle
+    check_clocked_ops(chk, world, chk.pick(1200, 10000))
+    lap("clocked-ops")
     chk.extra["distinct_nontrivial"] = len(chk.sigs) + nontriv
     chk.extra["distinct_histories"] = len(chk.sigs) + distinct
-    lap("sync-clock")
     chk.extra["section_seconds"] = tsec
     chk.extra.pop("_reported", None)
 
@@ -1910,6 +2502,20 @@ def replay(chk, data):
     chk.required_branches = []
     chk.rule = "replay of one stored history"
     rep = data["replay"]
+    if "rops" in rep:
+        r, _ = judge_rops(chk, world, rep["rops"])
+        chk.evaluations += 1
+        if r is not None:
+            report_list(chk, lambda ops: judge_rops(chk, world, ops), r, "rops")
+        chk.extra.pop("_reported", None)
+        return
+    if "kops" in rep:
+        r, _ = judge_kops(chk, world, rep["kops"])
+        chk.evaluations += 1
+        if r is not None:
+            report_list(chk, lambda ks: judge_kops(chk, world, ks), r, "kops")
+        chk.extra.pop("_reported", None)
+        return
     if "full" in rep:
         with fullclock(world) as clock:
             r, _ = judge_full(chk, world, clock, rep["full"])
